@@ -21,7 +21,7 @@ Proof. exact buffer_bound_double_l. Qed.
 Print Assumptions buffer_bound_double.
 
 Example buffer_bound_double_nonvacuous :
-  existsb (fun ns => String.eqb (fst ns) "NumberToDOMString.theBuffer" && Nat.eqb (snd ns) 347) dbl_buffers = true /\
+  existsb (fun ns => String.eqb (fst ns) "NumberToDOMString.theBuffer" && Nat.leb 347 (snd ns)) dbl_buffers = true /\
   existsb (Nat.eqb 35) safe_printf_precisions = true /\
   valid_binary prec emax (of_bits 0xFFEFFFFFFFFFFFFF) = true /\
   printf_bytes 35 (of_bits 0xFFEFFFFFFFFFFFFF) = 347%nat.
@@ -43,7 +43,7 @@ Print Assumptions integer_decimal_length.
 
 Example integer_decimal_length_tight :
   scalar_dec_chars (- 2 ^ 63) = Some 20%nat /\ scalar_dec_chars (2 ^ 64 - 1) = Some 20%nat /\
-  scalar_dec_chars 0 = Some 1%nat /\ existsb (fun se => (fst se =? 101)%N && (snd se =? 100)%N) int_dec_buffers = true.
+  scalar_dec_chars 0 = Some 1%nat /\ existsb (fun se => (20 <=? snd se)%N && (snd se <? fst se)%N) int_dec_buffers = true.
 Proof. vm_compute. repeat split. Qed.
 Print Assumptions integer_decimal_length_tight.
 
@@ -66,9 +66,23 @@ Proof. exact atof_guarded_l. Qed.
 Print Assumptions atof_buffer_guarded.
 
 Example atof_buffer_guard_boundary :
-  atof_guard 199 atof_buffer = true /\ atof_guard 200 atof_buffer = false /\ atof_written 199 199.
+  atof_guard (atof_buffer - 1) atof_buffer = true /\ atof_guard atof_buffer atof_buffer = false /\
+  atof_written (atof_buffer - 1) (atof_buffer - 1).
 Proof. vm_compute. repeat split. right. reflexivity. Qed.
 Print Assumptions atof_buffer_guard_boundary.
+
+(* XPathProcessorImpl::tokenize: the scans for the closing quote of a string literal read pat[k]
+   only for k < nChars, for every string, start index and both quote characters *)
+Theorem quote_scan_in_bounds : forall name test, In (name, test) quote_scan_tests ->
+  forall fuel quote pat i n k, In k (scan_reads fuel test quote pat i n) -> (k < n)%N.
+Proof. exact quote_scan_l. Qed.
+Print Assumptions quote_scan_in_bounds.
+
+Example quote_scan_unterminated :   (* 'ab  : reads 1, 2 and stops at nChars = 3 *)
+  List.length quote_scan_tests = 2%nat /\
+  scan_reads 10 N.ltb 39 (fun k => nth (N.to_nat k) [39; 97; 98]%N 0%N) 1 3 = [1; 2]%N.
+Proof. vm_compute. split; reflexivity. Qed.
+Print Assumptions quote_scan_unterminated.
 
 (* int2alphaCount (model shared with C17): for every radix it is called with and every CountType
    value the loop terminates within its fuel and stores at most 14 characters, all inside buf[] *)
@@ -98,7 +112,7 @@ Print Assumptions conflicts_bound.
 
 Example conflicts_bound_instance :
   conf (crun (fun p => if (p =? 3)%N then 1%Z else 5%Z) (-1)%Z [1; 2; 3; 4]%N) = [1; 2; 4]%N /\
-  conflicts_capacity 100 = 100%N /\ conflicts_capacity 101 = 101%N.
+  conflicts_capacity conflicts_array = conflicts_array /\ conflicts_capacity (conflicts_array + 1) = (conflicts_array + 1)%N.
 Proof. vm_compute. repeat split. Qed.
 Print Assumptions conflicts_bound_instance.
 
